@@ -103,8 +103,8 @@ def gen_material(rng, plan):
 
 
 # ----------------------------------------------------------------------------- scenes
-QUICK_BOX = [(3, 3, 3), (2, 4, 3), (6, 6, 2), (4, 2, 2), (1, 1, 1)]
-QUICK_SPH = [(3, 3, 3), (4, 4, 4), (4, 3, 2)]
+QUICK_BOX = [(3, 3, 3), (2, 4, 3), (6, 6, 2), (1, 1, 1)]
+QUICK_SPH = [(4, 4, 4), (4, 3, 2)]
 QUICK_CYL = [(0, 2, 6), (1, 3, 3), (2, 2, 4)]          # (axis, diameter cells, length)
 
 
@@ -400,7 +400,7 @@ def run(ctx):
     t1 = time.time()
     for sc in FIXED:
         check_scene(ctx, sc)
-    n = ctx.scale(18, 200)
+    n = ctx.scale(13, 90)
     for i in range(n):
         check_scene(ctx, gen_scene(ctx.rng, i, ctx.thorough), sample=(i == 0))
     ctx.extra["phase_seconds"] = {"import": round(t1 - t0, 1), "scenes": round(time.time() - t1, 1)}
